@@ -3,6 +3,7 @@ import SJ.Proofs.ParseIff
 import SJ.Proofs.ParseWF
 import SJ.Proofs.Bridge
 import SJ.Proofs.GoIter
+import SJ.Proofs.GoPJForEach
 /-
 C02 — Accepted documents are exposed with exact structure, order and values.
 -/
@@ -112,5 +113,33 @@ theorem C02_cursor_helpers_follow_source (i : Iter) (into : Bool) (tape : Array 
     exec goFuns fuel goIter_moveToEnd.body { env := envOf "i" i, tape := tape } = .normal { env := envOf "i" i.moveToEnd, tape := tape } ∧
     SimV tape i (runFun goFuns goIter_Type fuel { env := envOf "i" i, tape := tape }) (.ok i.type) :=
   ⟨calcNext_exec i into tape fuel hcur, moveToEnd_exec i tape fuel, type_exec i tape fuel⟩
+
+open SJ.GoSem SJ.GoIter SJ.GoPJForEach in
+/-- **Source tie** (DESIGN §6.3). `ParsedJson.ForEach` (`parsed_json.go`), printed from /repo on every run, means under
+    `GoSem.exec` the model's `pjForEach` — the walk over the top-level entries that `C02_parse_value` reads documents
+    back with. The callback is a parameter: its answers are a list given in advance (`fn.results`), what it was handed
+    is logged (`fn.log`, the five fields of each iterator). With a callback that never fails the log is exactly the
+    model's sequence of root iterators and the result is nil; the model's error is the Go error; the model's panic is a
+    Go panic; with enough fuel (`2·len(tape)+11`) nothing diverges. -/
+theorem C02_forEach_follows_source (pj : PJ) (N F : Nat) (hN : pj.tape.size ≤ N) (hF : 2 * pj.tape.size + 11 ≤ F) :
+    match pjForEach pj (Iter.ofPJ pj) #[] (fuelOf pj) with
+    | .ok its => ∃ s, runFun goFuns goParsedJson_ForEach F ⟨feStore pj (List.replicate N false), pj.tape⟩ =
+          .ret s [.bool false] ∧ s.tape = pj.tape ∧ logOf s.env = encIters its.toList ∧
+        s.env.get "fn.results" = some (.bools (List.replicate (N - its.size) false))
+    | .error _ => ∃ s, runFun goFuns goParsedJson_ForEach F ⟨feStore pj (List.replicate N false), pj.tape⟩ =
+          .ret s [.bool true]
+    | .panic => runFun goFuns goParsedJson_ForEach F ⟨feStore pj (List.replicate N false), pj.tape⟩ = .panic
+    | .diverge => False :=
+  pjForEach_sim pj N F hN hF
+
+open SJ.GoSem SJ.GoIter SJ.GoPJForEach in
+/-- … and when the callback's answer number `k` is an error, `ForEach` stops there and returns it, having handed out
+    exactly the first `k+1` iterators of the model's sequence. -/
+theorem C02_forEach_callback_error (pj : PJ) (k F : Nat) (tl : List Bool) (its : Array Iter)
+    (hF : 2 * pj.tape.size + 11 ≤ F) (hm : pjForEach pj (Iter.ofPJ pj) #[] (fuelOf pj) = .ok its) (hk : k < its.size) :
+    ∃ s, runFun goFuns goParsedJson_ForEach F ⟨feStore pj (List.replicate k false ++ true :: tl), pj.tape⟩ =
+        .ret s [.bool true] ∧ s.tape = pj.tape ∧ logOf s.env = encIters (its.toList.take (k + 1)) ∧
+      s.env.get "fn.results" = some (.bools tl) :=
+  pjForEach_sim_cbErr pj k F tl its hF hm hk
 
 end SJ.Properties.C02
